@@ -113,3 +113,17 @@ Theorem C06_table_lookup_until_unchanged_correct : forall dt X T b Y,
   lut_step T b Y = Y /\ exists n, Y = lut_iter n T b X.
 Proof. exact table_lookup_none_correct. Qed.
 Print Assumptions C06_table_lookup_until_unchanged_correct.
+
+From Centro Require Import Model.LutOps Proofs.LutWrappers.
+
+(* Full (operations called without a mask; the masked variants are covered by the exact
+   correspondence and the rule evaluated on the implementation's output, not by a theorem):
+   the wrapper = the documented rule of the operation iterated the requested / documented
+   number of times with the documented border value *)
+Theorem C06_wrapper_nomask_correct : forall code P b f mode dt X k,
+  nth_error doc_ops (Z.to_nat code) = Some (P, (b, f, mode)) -> 0 <= code < 13 ->
+  mode = -2 \/ 0 <= mode ->
+  (0 < length X)%nat -> rect X ->
+  run_op code dt X None (Some k) = Some (iter (if mode =? -2 then k else Z.to_nat mode) (op_rule P b) X).
+Proof. exact wrapper_nomask_correct. Qed.
+Print Assumptions C06_wrapper_nomask_correct.
